@@ -1489,5 +1489,15 @@ func (v *Verifier) evalTypeAssert(fr *Frame, st *State, x *ast.TypeAssertExpr, c
 		}
 		return val
 	}
-	return TupleVal{[]Val{val, Scalar{c.Fresh("assert#ok", BoolSort), types.Typ[types.Bool]}}}
+	okT := c.Fresh("assert#ok", BoolSort)
+	switch o := val.(type) {
+	case OpaqueVal:
+		st.assume(c.Implies(okT, c.Not(o.Nil))) // a successful assertion yields a non-nil value
+	case PtrVal:
+		if o.Loc == nil {
+			o.Nil = c.Fresh("assert#nil", BoolSort)
+			val = o
+		}
+	}
+	return TupleVal{[]Val{val, Scalar{okT, types.Typ[types.Bool]}}}
 }
